@@ -22,10 +22,16 @@ from vlib import flit
 
 # ---- tolerances (measured on the unchanged tree, see rep.cov['tolerance'])
 NONNEG_TOL = 1e-12
-# SLSQP is called with ftol=1e-4 on the ABSOLUTE objective sum((fit-load)^2); it stops when the objective changes by < ftol between
-# iterations, so the final objective is a small multiple of ftol. Measured over 2400 generated exact combinations (seeds 1-4, thorough
-# size): max objective 1.9e-3, 99.9 % below 1.2e-3. The oracle accepts objective <= 1e-2 (= 100 x ftol), i.e. every residual <= 0.1 mmol/g.
-SSQ_TOL = 1e-2
+# SLSQP is called with ftol=1e-4 on the ABSOLUTE objective sum((fit-load)^2); it stops when the objective changes by less than ftol
+# between iterations, so the final objective is a multiple of ftol whatever the magnitude of the isotherm. Measured on the unchanged
+# tree over 2400 generated exact combinations (seeds 1-4, thorough size): 2377 end with objective <= 1.59e-2 (99 % below 3e-3); the other
+# 23 end with objective >= 2.0e5 (SLSQP reports success far from the minimum; all have loadings above 600 mmol/g, see LARGE_LOADING).
+# Nothing lies in between. The oracle accepts objective <= 5e-2 (= 500 x ftol, 3 x the measured maximum): every residual <= 0.23 mmol/g.
+SSQ_TOL = 5e-2
+# input pattern of the recorded finding C18-F1: isotherms with loadings of several hundred mmol/g and more (physically unrealistic for
+# N2 at 77 K, but inside the property's quantifier)
+LARGE_LOADING = 500.0
+REL = 1e-9
 REL = 1e-9
 
 MANIFEST = dict(
@@ -37,7 +43,7 @@ MANIFEST = dict(
          "the reported distribution is non-negative; result depends only on the points inside [lo,hi) for any number of outside points; "
          "pressures outside the interpolators' range give CalculationError. NOT proved, only validated on every run by certificate checking of "
          "the implementation's outputs on random sparse/dense exact combinations (shipped 77-width kernel and generated user kernel files, "
-         "orders 0-3, limits): SLSQP convergence to a minimiser within tolerance (objective <= 1e-2 = 100 x ftol measured bound), non-negativity "
+         "orders 0-3, limits): SLSQP convergence to a minimiser within tolerance (objective <= 5e-2 = 500 x ftol, 3 x the measured maximum), non-negativity "
          "after B-spline smoothing, behaviour of scipy's cubic interp1d inside its range. The model is tied to the code on every run by "
          "executing it inside Coq on the recorded oracle answers and comparing all outputs with the implementation.",
     note="Trusted: Coq kernel; Reals axioms as Print Assumptions reports; oracles scipy.optimize.minimize(SLSQP) (post-condition x>=0, len x = "
@@ -315,6 +321,8 @@ def coq_term(c, oc, res, h, frange):
 
 # ------------------------------------------------------------------ classification of failing inputs (by input pattern + failed clause)
 def classify(c, clause):
+    if clause in ('exact-combination-not-reproduced', 'in-range-fit-refused') and c['l'] and max(abs(v) for v in c['l']) > LARGE_LOADING:
+        return 'C18:large-loading-slsqp-misconverges'
     return 'C18:unclassified:%s:%s:order%d:limits-%s:%s' % (clause, 'shipped' if c['shipped'] else 'user-kernel', c['order'], c['limits'], c['weights'])
 
 
@@ -369,14 +377,20 @@ def explore(rep, tier, seed, udir):
             continue
         if c['kind'] == 'narrow':
             continue      # fewer than 3 points in the window: behaviour not stated by the property; model-vs-code only
-        ins, out = window_idx(c)
+        _, out = window_idx(c)
         if oc != 'Ok':
             # an exact combination on an in-range grid must be fitted (SLSQP failure would surface here as CalculationError)
             fail(c, 'in-range-fit-refused', 'in-range exact combination refused with %s' % oc)
             continue
         stats['fits'] += 1
         W, D, C, KL = res['pore_widths'], res['pore_distribution'], res['pore_volume_cumulative'], res['kernel_loading']
+        # the window the implementation REPORTS (limits); the property requires that it holds only points inside the requested limits.
+        # Whether a point exactly at a limit belongs to it is left open by the text (the model-vs-code comparison pins the code's choice).
+        mn, mx = res['limits']
+        ins = list(range(max(mn, 0), min(mx, len(c['p']) - 1) + 1))
         pw = [c['p'][i] for i in ins]; lw = np.array([c['l'][i] for i in ins])
+        if any((c['lo'] is not None and x < c['lo']) or (c['hi'] is not None and x > c['hi']) for x in pw) or mn < 0 or mx >= len(c['p']):
+            fail(c, 'window-holds-outside-point', 'reported limits %r include a point outside the requested limits' % (res['limits'],))
         # 1 non-negative distribution
         stats['min_distribution'] = min(stats['min_distribution'], float(D.min()))
         if not (D >= -NONNEG_TOL).all() or not np.isfinite(D).all():
@@ -389,15 +403,21 @@ def explore(rep, tier, seed, udir):
             stats['max_objective'] = max(stats['max_objective'], ssq)
             stats['max_abs_residual'] = max(stats['max_abs_residual'], float(np.abs(KL - lw).max()))
             if not ssq <= SSQ_TOL:
-                fail(c, 'exact-combination-not-reproduced', 'sum of squared residuals %g > %g' % (ssq, SSQ_TOL))
+                fail(c, 'exact-combination-not-reproduced', 'sum of squared residuals %g > %g (max residual %g, max loading %g)' % (
+                    ssq, SSQ_TOL, float(np.abs(KL - lw).max()), float(np.abs(lw).max())))
+            else:
+                stats['max_objective_accepted'] = max(stats.get('max_objective_accepted', 0.0), ssq)
         # 3 kernel-weighted sum of the reported distribution is the reported fitted isotherm (order 0: reported on the kernel widths)
+        if len(W) != len(D):
+            fail(c, 'widths-distribution-shape', 'pore_widths has %d entries, pore_distribution %d' % (len(W), len(D)))
+            continue
         dW = np.ediff1d(W, to_begin=W[0])
         if c['order'] == 0:
             KPw = kernel_matrix(c['path'], pw)
-            if len(D) != KPw.shape[0] or not np.allclose((KPw * (D * dW)[:, None]).sum(axis=0), KL, rtol=REL, atol=1e-12):
+            if len(D) != KPw.shape[0] or len(KL) != KPw.shape[1] or not np.allclose((KPw * (D * dW)[:, None]).sum(axis=0), KL, rtol=REL, atol=1e-12):
                 fail(c, 'fitted-isotherm-not-kernel-sum', 'kernel_loading != kernel applied to pore_distribution*dw')
         # 4 cumulative: non-decreasing, running integral of the reported distribution
-        if len(C) != len(D) or not np.allclose(C, np.cumsum(D * dW), rtol=REL, atol=1e-14):
+        if len(C) != len(D) or len(W) != len(D) or not np.allclose(C, np.cumsum(D * dW), rtol=REL, atol=1e-14):
             fail(c, 'cumulative-not-running-integral', 'pore_volume_cumulative != cumsum(pore_distribution*dw)')
         if (np.diff(C) < -NONNEG_TOL).any():
             fail(c, 'cumulative-decreasing', 'pore_volume_cumulative decreases by %g' % float(-np.diff(C).min()))
@@ -466,7 +486,7 @@ def explore(rep, tier, seed, udir):
                             'and sometimes ending exactly at the kernel maximum; limits none/lo/hi/both, 25 % exactly at a data point; spline order = index mod 4; '
                             'isotherm = weights applied to the kernel isotherms evaluated through the implementation\'s own _load_kernel interpolators')
     rep.cov['tolerance'] = {'non_negativity': NONNEG_TOL, 'objective_sum_of_squares_max': SSQ_TOL,
-                            'objective_note': 'SLSQP ftol=1e-4 (absolute, on the objective); measured max over 2400 exact combinations 1.9e-3; bound = 100 x ftol',
+                            'objective_note': 'SLSQP ftol=1e-4 (absolute, on the objective); measured on the unchanged tree over 2400 exact combinations: 2377 <= 1.59e-2, 23 >= 2e5 (finding C18-F1, loadings > 600 mmol/g), none between; bound = 500 x ftol',
                             'identities_rel': REL, 'model_vs_implementation_rel': 1e-9, 'measured_this_run': stats}
     rep.cov['correspondence'] = {'cases': len(terms), 'disagreements': ndis,
                                  'what': 'psd_dft QNum (Charact/Kernel.v) executed by vm_compute on the recorded interpolator values / SLSQP result.x, result.fun / bspline '
@@ -480,7 +500,7 @@ def explore(rep, tier, seed, udir):
                                 'numpy.searchsorted modelled as the number of leading elements < v (ascending pressures)',
                                 'harness hooks: psd_kernel.optimize / psd_kernel.bspline replaced by recording wrappers in the harness process',
                                 'carrier: theorems over RNum, execution over QNum']
-    rep.assumptions += ['un-modelled runtime behaviour: SLSQP convergence (reproduction of exact combinations is validated: objective <= 1e-2 on every generated case)',
+    rep.assumptions += ['un-modelled runtime behaviour: SLSQP convergence (reproduction of exact combinations is validated: objective <= 5e-2 on every generated case; SLSQP reporting success far from the minimum for loadings of hundreds of mmol/g is the recorded finding C18-F1)',
                         'un-modelled: B-spline smoothing for orders 1-3 (non-negativity and monotone cumulative after smoothing are validated on the outputs, not proved)',
                         'un-modelled: cubic interpolation inside the kernel range (synthetic isotherms are built through the same interpolators)',
                         'pressures ascending (adsorption branch); IEEE rounding excluded (1e-9 relative)',
@@ -502,8 +522,7 @@ def replay(d):
     oc, res, h = call_psd(c)
     print('outcome:', oc)
     if res is not None:
-        ins, out = window_idx(c)
-        lw = np.array([c['l'][i] for i in ins])
+        lw = np.array(c['l'][max(res['limits'][0], 0):res['limits'][1] + 1])
         print('limits', res['limits'], 'min distribution %g' % res['pore_distribution'].min(), 'cumulative monotone', bool((np.diff(res['pore_volume_cumulative']) >= -1e-12).all()))
         if len(lw) == len(res['kernel_loading']):
             print('sum of squared residuals %g' % float(((res['kernel_loading'] - lw) ** 2).sum()))
